@@ -79,6 +79,9 @@ def check_c06(tier):
     rep.add("negative_control", corrupted_records_rejected=3)
     rep.assumptions = ["host coverage of a certificate is decided by crypto/x509 VerifyHostname on harness-made certificates", "dates below 2^63",
                        "a second signer covering an exchange that already has a Digest header is refused by the code; such sequences end in a refusal"]
+    # the command-line path (sign-bundle signatures-section, also in place) with the same obligation on what dump-bundle reports
+    from cli_checks import sig_cli
+    sig_cli(rep, "C06")
     # calls on independent objects running in parallel do not interfere (Trace_Purity, race detector)
     from purity_checks import parallel_cold
     parallel_cold(rep, "C06", "signatures")
